@@ -73,14 +73,30 @@ theorem tie_siblingLoop : Generated.glue_siblingLoop =
 caller's keys and options -/
 theorem tie_memoKeys : Generated.glue_memoKeys =
     ["u := IndexURL(repoURL, arch)",
-     "key := fmt.Sprintf(\"%s@%s\", u, etag)",
-     "i.onces.LoadOrStore(key)", "i.urlToEtag[u]",
-     "prevKey := fmt.Sprintf(\"%s@%s\", u, prev)",
-     "i.forget(prevKey)", "i.store(key)", "i.urlToEtag[u]", "i.load(key)",
-     "i.modtimes[u]", "i.store(u)", "i.store(u)", "i.modtimes[u]", "i.load(u)"] ∧
+     "mode := indexVerificationMode(u, arch, keys, opts)",
+     "um := u + \"#\" + mode",
+     "key := fmt.Sprintf(\"%s@%s#%s\", u, etag, mode)",
+     "i.onces.LoadOrStore(key)", "i.urlToEtag[um]",
+     "prevKey := fmt.Sprintf(\"%s@%s#%s\", u, prev, mode)",
+     "i.forget(prevKey)", "i.store(key)", "i.urlToEtag[um]", "i.load(key)",
+     "i.modtimes[um]", "i.store(um)", "i.store(um)", "i.modtimes[um]", "i.load(um)"] ∧
     Generated.glue_memoParseArgs = ["ctx, u, keys, arch, b, opts", "ctx, u, keys, arch, b, opts"] ∧
-    Generated.glue_modeStmts = [] ∧ implKeying = .legacy := by
-  refine ⟨by rfl, by rfl, by rfl, rfl⟩
+    implKeying = .byMode := by
+  refine ⟨by rfl, by rfl, rfl⟩
+
+/-- the mode string (`modeOf`): a fixed word when `shouldCheckSignatureForIndex` says no; otherwise another
+word followed by every key — name and content, each with its length in front, in name order: an injective
+encoding of the key set (no digest, hence no collision assumption) -/
+theorem tie_modeStmts : Generated.glue_modeStmts =
+    ["if !shouldCheckSignatureForIndex(u, arch, opts) { return \"unverified\" }",
+     "names := make([]string, 0, len(keys))",
+     "for name := range keys { names = append(names, name) }",
+     "slices.Sort(names)",
+     "var mode strings.Builder",
+     "mode.WriteString(\"verified\")",
+     "for _, name := range names { fmt.Fprintf(&mode, \":%d:%s:%d:\", len(name), name, len(keys[name])) mode.Write(keys[name]) }",
+     "return mode.String()"] := by
+  rfl
 
 /-! ## what a remembered / returned index must satisfy -/
 
@@ -433,7 +449,7 @@ theorem resolve_ok_family_verified (C : Crypto) (R : Codec) (n : Net) (st : Stat
       rw [hu, ha, hk, hop] at hacc
       exact ⟨idx, rfl, a, hacc⟩
 
-/-! ## the memo before the repair (F04b): keyed by URL + token only -/
+/-! ## the memo before the repair of F04b: keyed by URL + token only -/
 
 namespace Witness
 
@@ -461,6 +477,9 @@ def GlueVerified (K : Keying) : Prop :=
     ∀ e ∈ (runAll K C R ⟨[], cd0, []⟩ runs).2.log, Justified C R e
 
 theorem glue_verified_byMode : GlueVerified .byMode := glue_used_verified
+
+/-- the end-to-end statement for the code as it is now (`tie_memoKeys`) -/
+theorem glue_impl_verified : GlueVerified implKeying := glue_used_verified
 
 /-- F04b: with the memo keyed by URL + ETag / path + mtime only, an index parsed without verification by one
 caller is handed to a later caller of the same process that has verification on -/
